@@ -320,7 +320,7 @@ func c18c(tp *tape.Tape) core.Result {
 	}
 	var stmts []string // top-level statements after the definitions; the last one's value is checked
 	var want string
-	tpl := tp.Draw(10)
+	tpl := tp.Draw(11)
 	key = key.Int(tpl).Int(w)
 	switch tpl {
 	case 0: // a generator yields a closure over its local; the consumer returns it out of the loop
@@ -362,6 +362,12 @@ func c18c(tp *tape.Tape) core.Result {
 		stmts = []string{fmt.Sprintf("outer(%d)", k), "{\n" + drawMid() + "\nouter(" + fmt.Sprint(k) + ")\n}"}
 		want = fmt.Sprint(k + 1)
 		r.Inc("C.closure_called_deeper", 1)
+	case 10: // the same function, so the same frame shape at the same place, with other arguments after the stack was reallocated
+		defs = append(defs, "shp = (v) -> {\n"+pad(w)+"x = v * 2\nh = (y) -> x + y\nh(1)\n}")
+		d := []int{150, 300, 1200, 3000}[tp.Draw(4)]
+		stmts = []string{fmt.Sprintf("shp(%d)", k), fmt.Sprintf("deep(%d)", d), fmt.Sprintf("shp(%d)", k+5), "{\n" + drawMid() + fmt.Sprintf("\n[shp(%d), deep(%d), shp(%d)]\n}", k+1, 2*d, k+9)}
+		want = fmt.Sprintf("[%d, %d, %d]", 2*(k+1)+1, 2*d, 2*(k+9)+1)
+		r.Inc("C.same_frame_shape_other_arguments_after_growth", 1)
 	case 9: // three function literals deep: the innermost reads a name its grandparent binds; it sees the global (Readme: own, enclosing, global)
 		defs = append(defs, "ww = 100", "wf = (ww) -> (y) -> {\n"+pad(w)+"(z) -> ww + y + z\n}")
 		stmts = []string{fmt.Sprintf("ws = wf(%d)", k), "wt = ws(1)", "{\n" + drawMid() + "\nwt(2)\n}", "wt(2)"}
